@@ -10,6 +10,30 @@ Import ListNotations.
 Open Scope nat_scope.
 Set Default Proof Using "All".
 
+Lemma main_idx_of_spec ss : existsb (Nat.eqb 1) ss = true ->
+  main_idx_of ss < length ss /\ nth_error ss (main_idx_of ss) = Some 1 /\ forall j, j < main_idx_of ss -> nth j ss 0 <> 1.
+Proof.
+  induction ss as [|x t IH]; cbn [existsb main_idx_of length]; [discriminate|]. rewrite (Nat.eqb_sym 1 x).
+  destruct (x =? 1) eqn:E; cbn [orb].
+  - intros _. apply Nat.eqb_eq in E. subst. split; [lia|]. split; [reflexivity | intros j Hj; lia].
+  - intros H. destruct (IH H) as (H1 & H2 & H3). split; [lia|]. split; [exact H2|].
+    intros [|j] Hj; cbn [nth]; [apply Nat.eqb_neq; exact E | apply H3; lia].
+Qed.
+
+Lemma find_main_spec ss : existsb (Nat.eqb 1) ss = true -> forall i, find_main ss i = ROk (i + main_idx_of ss).
+Proof.
+  induction ss as [|x t IH]; cbn [existsb main_idx_of find_main]; [discriminate|]. rewrite (Nat.eqb_sym 1 x).
+  destruct (x =? 1); cbn [orb]; intros H i; [f_equal; lia|]. rewrite (IH H). f_equal. lia.
+Qed.
+
+Lemma nth_error_combine3 {A B C} (xs : list A) (ys : list B) (zs : list C) i x y z :
+  nth_error xs i = Some x -> nth_error ys i = Some y -> nth_error zs i = Some z -> In (x, y, z) (combine (combine xs ys) zs).
+Proof.
+  revert ys zs i. induction xs as [|a t IH]; intros [|b ys] [|d zs] [|i] H1 H2 H3; cbn in *; try discriminate.
+  - inversion H1; inversion H2; inversion H3; subst. left. reflexivity.
+  - right. apply (IH ys zs i); assumption.
+Qed.
+
 Section F0.
 Variable fb : flat.
 Hypothesis HF : frag2 fb = true.
@@ -27,21 +51,30 @@ Definition f0_s : nat := list_sum (map f0_cw f0_cprod).
 Definition f0_C : nat := f0_s * the_weight fb.
 
 Record f0_facts : Prop := {
-  f0_crossings : fl_crossings fb = c :: tl (fl_crossings fb);
+  f0_main_lt : main_idx fb < length (fl_crossings fb);
+  f0_crossings : nth_error (fl_crossings fb) (main_idx fb) = Some c;
+  f0_main_sustain : nth_error (fl_sustains fb) (main_idx fb) = Some 1;
+  f0_main_first : forall j, j < main_idx fb -> nth j (fl_sustains fb) 0 <> 1;
+  f0_main_index : first_index_of c (fl_crossings fb) 0 = Some (main_idx fb);
   f0_cross_plain : forall ci, In ci (fl_crossings fb) -> NoDup ci /\ forall f, In f ci -> f < n;
-  f0_sustains : forall x, In x (fl_sustains fb) -> x = 1;
+  f0_sustains_pos : forall x, In x (fl_sustains fb) -> 0 < x;
   f0_sustains_len : length (fl_sustains fb) = length (fl_crossings fb);
-  f0_weights : fl_weights fb = w :: tl (fl_weights fb);
+  f0_main_sustain_of : forall f, In f c -> sustain_of fb f = 1;
+  f0_sustain_div : forall x, In x (fl_sustains fb) -> fl_trials fb mod x = 0;
+  f0_sustain_checked : (forall x, In x (fl_sustains fb) -> x = 1) \/ In FSustain (fl_constraints fb);
+  f0_weights : nth_error (fl_weights fb) (main_idx fb) = Some w;
   f0_weights_len : length (fl_weights fb) = length (fl_crossings fb);
   f0_weights_pos : forall x, In x (fl_weights fb) -> 0 < x;
   f0_wpos : 0 < w;
   f0_preambles : forall x, In x (fl_preambles fb) -> x = 0;
   f0_preambles_len : length (fl_preambles fb) = length (fl_crossings fb);
   f0_alpre : fl_alignment_preamble fb = 0;
-  f0_sizes : fl_sizes fb = f0_s :: tl (fl_sizes fb);
+  f0_sizes : nth_error (fl_sizes fb) (main_idx fb) = Some f0_s;
   f0_sizes_len : length (fl_sizes fb) = length (fl_crossings fb);
-  f0_size_ok : forall ci si, In (ci, si) (combine (fl_crossings fb) (fl_sizes fb)) ->
-               si = list_sum (map (fun ls => combo_weight fb (combine ci ls)) (allowed_combos2 fb ci)) /\ 0 < si;
+  f0_size_ok : forall i ci si su, nth_error (fl_crossings fb) i = Some ci -> nth_error (fl_sizes fb) i = Some si ->
+               nth_error (fl_sustains fb) i = Some su ->
+               si = list_sum (map (fun ls => combo_weight fb (combine ci ls)) (allowed_combos2 fb ci)) * su /\ 0 < si /\
+               match ci with [] => 1 | f :: _ => sustain_of fb f end = su /\ sustain_of fb (hd 0 ci) = su;
   f0_spos : 0 < f0_s;
   f0_nodup : NoDup c;
   f0_range : forall f, In f c -> f < n;
@@ -79,13 +112,37 @@ Proof.
   apply andb_prop in Hpc. destruct Hpc as [Hpc Hprelen].
   apply andb_prop in Hpc. destruct Hpc as [Hpc Hwpos].
   apply andb_prop in Hpc. destruct Hpc as [Hpc Hwlen].
-  apply andb_prop in Hpc. destruct Hpc as [Hpc Hsu1].
+  apply andb_prop in Hpc. destruct Hpc as [Hpc Hchk].
+  apply andb_prop in Hpc. destruct Hpc as [Hpc Hdiv].
+  apply andb_prop in Hpc. destruct Hpc as [Hpc Hfirst].
+  apply andb_prop in Hpc. destruct Hpc as [Hpc Hmsu].
+  apply andb_prop in Hpc. destruct Hpc as [Hpc Hex1].
+  apply andb_prop in Hpc. destruct Hpc as [Hpc Hsupos].
   apply andb_prop in Hpc. destruct Hpc as [Hpc Hsulen].
   apply andb_prop in Hpc. destruct Hpc as [Hk Hplain].
   apply Nat.ltb_lt in Hk. apply Nat.eqb_eq in Hsulen. apply Nat.eqb_eq in Hwlen. apply Nat.eqb_eq in Hprelen.
   apply Nat.eqb_eq in Hszlen. apply Nat.eqb_eq in Halpre.
-  unfold exclude_consistent in Hexcl. apply andb_prop in Hexcl. destruct Hexcl as [Hex1 Hex2].
-  destruct (fl_excluded_derived fb) eqn:Eed; try discriminate.
+  assert (Hidx : first_index_of c (fl_crossings fb) 0 = Some (main_idx fb)).
+  { unfold the_crossing. destruct (first_index_of (main_crossing_of fb) (fl_crossings fb) 0) as [j|]; [|discriminate Hfirst].
+    apply Nat.eqb_eq in Hfirst. rewrite Hfirst. reflexivity. }
+  clear Hfirst.
+  assert (Hdiv' : forall x, In x (fl_sustains fb) -> fl_trials fb mod x = 0).
+  { intros x Hx. rewrite forallb_forall in Hdiv. apply Nat.eqb_eq. apply Hdiv. exact Hx. }
+  clear Hdiv.
+  assert (Hmsu' : forall f, In f c -> sustain_of fb f = 1).
+  { intros f Hf. rewrite forallb_forall in Hmsu. apply Nat.eqb_eq. apply Hmsu. exact Hf. }
+  clear Hmsu.
+  assert (Hsupos' : forall x, In x (fl_sustains fb) -> 0 < x).
+  { intros x Hx. rewrite forallb_forall in Hsupos. apply Nat.ltb_lt. apply Hsupos. exact Hx. }
+  clear Hsupos.
+  assert (Hchk' : (forall x, In x (fl_sustains fb) -> x = 1) \/ In FSustain (fl_constraints fb)).
+  { apply orb_prop in Hchk. destruct Hchk as [H | H]; [left; apply (forallb_eqb_all 1); exact H|]. right.
+    apply existsb_exists in H. destruct H as [k0 [Hk0 E]]. destruct k0; try discriminate E. exact Hk0. }
+  clear Hchk.
+  destruct (main_idx_of_spec (fl_sustains fb) Hex1) as (Hmi & Hmsu1 & Hmfirst). fold (main_idx fb) in Hmi, Hmsu1, Hmfirst.
+  clear Hex1.
+  unfold exclude_consistent in Hexcl. apply andb_prop in Hexcl. destruct Hexcl as [Hexa Hexb].
+  destruct (fl_excluded_derived fb) eqn:Eed; try discriminate Hexb.
   unfold act_sorted in Hact. apply nat_list_eqb_eq in Hact.
   assert (Hactlt : forall f, In f (fl_act fb) -> f < n).
   { intros f Hf. rewrite Hact in Hf. apply filter_In in Hf. destruct Hf as [Hf _]. apply in_seq in Hf. lia. }
@@ -93,10 +150,16 @@ Proof.
   { intros ci Hci. rewrite forallb_forall in Hplain. specialize (Hplain ci Hci). unfold crossing_plain in Hplain.
     apply andb_prop in Hplain. destruct Hplain as [H1 H2]. split; [apply nodupb_NoDup; exact H1|].
     intros f Hf. rewrite forallb_forall in H2. apply isact_In. apply H2. exact Hf. }
-  assert (Hsz' : forall ci si, In (ci, si) (combine (fl_crossings fb) (fl_sizes fb)) ->
-               si = list_sum (map (fun ls => combo_weight fb (combine ci ls)) (allowed_combos2 fb ci)) /\ 0 < si).
-  { intros ci si Hin. rewrite forallb_forall in Hszok. specialize (Hszok _ Hin). unfold crossing_size_ok in Hszok.
-    cbn [fst snd] in Hszok. apply andb_prop in Hszok. destruct Hszok as [H1 H2]. apply Nat.eqb_eq in H1. apply Nat.ltb_lt in H2. auto. }
+  assert (Hsz' : forall i ci si su, nth_error (fl_crossings fb) i = Some ci -> nth_error (fl_sizes fb) i = Some si ->
+               nth_error (fl_sustains fb) i = Some su ->
+               si = list_sum (map (fun ls => combo_weight fb (combine ci ls)) (allowed_combos2 fb ci)) * su /\ 0 < si /\
+               match ci with [] => 1 | f :: _ => sustain_of fb f end = su /\ sustain_of fb (hd 0 ci) = su).
+  { intros i ci si su H1 H2 H3. rewrite forallb_forall in Hszok.
+    specialize (Hszok _ (nth_error_combine3 _ _ _ i ci si su H1 H2 H3)). unfold crossing_size_ok in Hszok.
+    apply andb_prop in Hszok. destruct Hszok as [Hszok Hs4]. apply andb_prop in Hszok. destruct Hszok as [Hszok Hs3].
+    apply andb_prop in Hszok. destruct Hszok as [Hs1 Hs2].
+    apply Nat.eqb_eq in Hs1. apply Nat.ltb_lt in Hs2. apply Nat.eqb_eq in Hs3. apply Nat.eqb_eq in Hs4.
+    split; [exact Hs1|]. split; [exact Hs2|]. split; [exact Hs3 | exact Hs4]. }
   assert (Hwp : forall x, In x (fl_weights fb) -> 0 < x).
   { intros x Hx. rewrite forallb_forall in Hwpos. apply Nat.ltb_lt. apply Hwpos. exact Hx. }
   assert (Hfd : forall f fd, factor_at fb f = Some fd ->
@@ -109,21 +172,25 @@ Proof.
       rewrite combine_nth by (rewrite seq_length; reflexivity). rewrite seq_nth by exact Hlt.
       rewrite (nth_error_nth _ _ fd Hf). reflexivity. }
     specialize (Hfac Hin). destruct (isact fb f); exact Hfac. }
-  unfold f0_s, f0_cw, f0_q, f0_cprod, the_crossing, the_weight.
-  destruct (fl_crossings fb) as [|c0 ocs] eqn:Ec; [cbn in Hk; lia|].
-  destruct (fl_weights fb) as [|w0 ows] eqn:Ew; [cbn in Hwlen; lia|].
-  destruct (fl_sizes fb) as [|s0 oss] eqn:Ez; [cbn in Hszlen; lia|].
-  destruct (Hsz' c0 s0 (or_introl eq_refl)) as [Es0 Hs0]. cbn [hd tl].
-  constructor; unfold f0_s, f0_cw, f0_q, f0_cprod, the_crossing, the_weight; rewrite ?Ec, ?Ew, ?Ez; cbn [hd tl]; try reflexivity; try assumption.
+  (* the sampled crossing *)
+  assert (Hmic : main_idx fb < length (fl_crossings fb)) by (clear - Hmi Hsulen; lia).
+  assert (Ec : nth_error (fl_crossings fb) (main_idx fb) = Some c).
+  { unfold the_crossing, main_crossing_of. apply nth_error_nth'. exact Hmic. }
+  assert (Ew : nth_error (fl_weights fb) (main_idx fb) = Some w).
+  { unfold the_weight. apply nth_error_nth'. clear - Hmic Hwlen. lia. }
+  assert (Hcin : In c (fl_crossings fb)) by (eapply nth_error_In; exact Ec).
+  destruct (nth_error (fl_sizes fb) (main_idx fb)) as [s0|] eqn:Ez; [|apply nth_error_None in Ez; clear - Ez Hmic Hszlen; lia].
+  destruct (Hsz' _ _ _ _ Ec Ez Hmsu1) as (Es0 & Hs0 & _ & _). rewrite Nat.mul_1_r in Es0.
+  assert (Efs : s0 = f0_s) by (rewrite Es0; reflexivity).
+  constructor; try assumption.
   - intros ci Hci. destruct (Hplain' ci Hci) as [H1 H2]. split; [exact H1|]. intros f Hf. apply Hactlt. apply H2. exact Hf.
-  - apply (forallb_eqb_all 1). exact Hsu1.
-  - apply Hwp. left. reflexivity.
+  - apply Hwp. eapply nth_error_In. exact Ew.
   - apply (forallb_eqb_all 0). exact Hpre0.
-  - rewrite Es0. reflexivity.
-  - rewrite <- Es0. exact Hs0.
-  - apply (Hplain' c0). left. reflexivity.
-  - intros f Hf. apply Hactlt. apply (Hplain' c0); [left; reflexivity | exact Hf].
-  - apply pairs_eqb_eq. exact Hex1.
+  - rewrite <- Efs. exact Ez.
+  - rewrite <- Efs. exact Hs0.
+  - apply (Hplain' c Hcin).
+  - intros f Hf. apply Hactlt. apply (Hplain' c Hcin). exact Hf.
+  - apply pairs_eqb_eq. exact Hexa.
   - intros ci f Hci Hf. apply (Hplain' ci Hci). exact Hf.
   - intros f fd Hf Hfa. specialize (Hfd f fd Hfa). rewrite (proj2 (isact_In f) Hf) in Hfd.
     apply orb_prop in Hfd. destruct Hfd as [Hb | Hd].
@@ -147,7 +214,10 @@ Lemma act_nodup : NoDup (fl_act fb).
 Proof. rewrite (f0_act f0_unpack). apply NoDup_filter. apply seq_NoDup. Qed.
 
 Lemma f0_cact_main f : In f c -> In f (fl_act fb).
-Proof. intros Hf. apply (f0_cact f0_unpack c f); [rewrite (f0_crossings f0_unpack); left; reflexivity | exact Hf]. Qed.
+Proof. intros Hf. apply (f0_cact f0_unpack c f); [eapply nth_error_In; apply (f0_crossings f0_unpack) | exact Hf]. Qed.
+
+Lemma f0_c_in : In c (fl_crossings fb).
+Proof. eapply nth_error_In. apply (f0_crossings f0_unpack). Qed.
 
 Lemma f0_q_pos : 0 < f0_q.
 Proof.
@@ -297,18 +367,17 @@ Proof. intros H. unfold f0_N, p_N. fold f0_unw. rewrite H. reflexivity. Qed.
 Lemma f0_unw_C : f0_unw = true -> f0_C = f0_q.
 Proof. intros H. rewrite <- f0_p_C, <- f0_cws_length. apply unw_C. exact H. Qed.
 
-Lemma f0_main_factors : main_factors fb 0 = ROk c.
-Proof. unfold main_factors, no_crossings. rewrite (f0_crossings f0_unpack). reflexivity. Qed.
-
-Lemma f0_main_crossing : main_crossing fb = ROk 0.
-Proof.
-  unfold main_crossing. pose proof (f0_sustains f0_unpack) as H1. pose proof (f0_sustains_len f0_unpack) as H2.
-  rewrite (f0_crossings f0_unpack) in H2. destruct (fl_sustains fb) as [|x t]; [cbn in H2; lia|].
-  rewrite (H1 x (or_introl eq_refl)). reflexivity.
-Qed.
-
 Lemma f0_no_crossings : no_crossings fb = false.
-Proof. unfold no_crossings. rewrite (f0_crossings f0_unpack). reflexivity. Qed.
+Proof. unfold no_crossings. pose proof (f0_main_lt f0_unpack) as H. destruct (fl_crossings fb); [cbn in H; lia | reflexivity]. Qed.
+
+Lemma f0_main_factors : main_factors fb (main_idx fb) = ROk c.
+Proof. unfold main_factors. rewrite f0_no_crossings, (f0_crossings f0_unpack). reflexivity. Qed.
+
+Lemma f0_main_crossing : main_crossing fb = ROk (main_idx fb).
+Proof.
+  unfold main_crossing. rewrite find_main_spec; [reflexivity|]. apply existsb_exists. exists 1. split; [|reflexivity].
+  eapply nth_error_In. apply (f0_main_sustain f0_unpack).
+Qed.
 
 Lemma f0_cnc : crossed_noncomplex fb c = c.
 Proof. unfold crossed_noncomplex. apply filter_all. intros f Hf. rewrite f0_not_complex by (apply f0_cact_main; exact Hf). reflexivity. Qed.
@@ -384,13 +453,12 @@ Qed.
 
 Lemma f0_cw_of_main : cw_of fb c = w.
 Proof.
-  unfold cw_of. rewrite (f0_crossings f0_unpack). cbn [first_index_of]. rewrite nat_list_eqb_refl.
-  rewrite (f0_weights f0_unpack). reflexivity.
+  unfold cw_of. rewrite (f0_main_index f0_unpack). apply nth_error_nth. apply (f0_weights f0_unpack).
 Qed.
 
 Lemma f0_block_weight : block_crossing_weight fb c = ROk (Z.of_nat w).
 Proof.
-  rewrite f0_block_weight_of by (rewrite (f0_crossings f0_unpack); left; reflexivity). rewrite f0_cw_of_main. reflexivity.
+  rewrite f0_block_weight_of by apply f0_c_in. rewrite f0_cw_of_main. reflexivity.
 Qed.
 
 Lemma f0_post_preamble : post_preamble_size fb = 0.
@@ -404,8 +472,8 @@ Proof.
   rewrite (nth_error_nth' _ 0 Hi). rewrite (f0_preambles f0_unpack _ (nth_In _ 0 Hi)). destruct (fl_alignment fb); reflexivity.
 Qed.
 
-Lemma f0_block_preamble : block_preamble_size fb 0 = ROk 0%Z.
-Proof. apply f0_block_preamble_at. rewrite (f0_crossings f0_unpack). cbn. lia. Qed.
+Lemma f0_block_preamble : block_preamble_size fb (main_idx fb) = ROk 0%Z.
+Proof. apply f0_block_preamble_at. apply (f0_main_lt f0_unpack). Qed.
 
 Definition f0_moc : moc := if f0_unw then Uniform 1 else Counters f0_cws.
 
@@ -413,7 +481,7 @@ Definition f0_moc : moc := if f0_unw then Uniform 1 else Counters f0_cws.
 Definition f0_srcs : list asg := instances_of fb f0_ubs.
 
 Definition f0_base : enum_base :=
-  {| eb_main := 0; eb_mf := c; eb_cnc := c; eb_instances := f0_instances;
+  {| eb_main := main_idx fb; eb_mf := c; eb_cnc := c; eb_instances := f0_instances;
      eb_cweights := f0_cws; eb_unweighted := f0_unw;
      eb_sources := f0_srcs; eb_src_factors := f0_ubs; eb_m := 1%Z; eb_csize := Z.of_nat f0_C;
      eb_moc := f0_moc; eb_sorted_derived := stable_sort (fdepth fb) (derived_factors fb); eb_sorted_ucd := []; eb_has_cc := false;
@@ -435,18 +503,19 @@ Proof.
   cbn [rbind].
   rewrite (rmap_ok_map _ (fun ci => Z.of_nat (cw_of fb ci)) (fl_crossings fb)) by (intros ci Hci; apply f0_block_weight_of; exact Hci).
   cbn [rbind].
-  rewrite (f0_sizes f0_unpack) at 1. cbn [map nth_error of_opt rbind].
-  rewrite (f0_crossings f0_unpack) at 1. cbn [map nth_error of_opt rbind]. rewrite f0_cw_of_main.
+  rewrite (map_nth_error Z.of_nat _ _ (f0_sizes f0_unpack)). cbn [of_opt rbind].
+  rewrite (map_nth_error (fun ci => Z.of_nat (cw_of fb ci)) _ _ (f0_crossings f0_unpack)). cbn [of_opt rbind]. rewrite f0_cw_of_main.
   replace (Z.of_nat f0_s * Z.of_nat w =? (0 + Z.of_nat f0_C) * 1)%Z with true
     by (symmetry; apply Z.eqb_eq; unfold f0_C; lia).
   cbn [rbind].
-  rewrite (f0_crossings f0_unpack) at 1. cbn [length seq map nth_error of_opt rbind].
+  assert (Hpre : nth_error (map (fun _ : nat => 0%Z) (seq 0 (length (fl_crossings fb)))) (main_idx fb) = Some 0%Z).
+  { rewrite nth_error_map. rewrite (nth_error_nth' (seq 0 (length (fl_crossings fb))) 0) by (rewrite seq_length; apply (f0_main_lt f0_unpack)).
+    reflexivity. }
+  rewrite Hpre. cbn [of_opt rbind].
   rewrite f0_ucd. cbn [stable_sort fold_right].
   assert (Hmap : map (fun x : Z => (x * 1)%Z) f0_cws = f0_cws).
   { rewrite <- (map_id f0_cws) at 2. apply map_ext. intros x. lia. }
-  rewrite Hmap. unfold f0_base, f0_moc, f0_srcs. f_equal.
-  rewrite (f0_crossings f0_unpack), (f0_sizes f0_unpack). cbn [length seq map].
-  f_equal; try reflexivity; try lia.
+  rewrite Hmap. unfold f0_base, f0_moc, f0_srcs. f_equal. f_equal; try reflexivity; try lia.
 Qed.
 
 Lemma f0_plain : plain f0_base = f0_unw.
